@@ -2906,7 +2906,12 @@ func (a *Agent) TaskDispatch(RequestID uint32, CommandID uint32, Parser *parser.
 								ReadOne = true
 
 								if ListOnly {
-									Dir += fmt.Sprintf("%s%s\n", RootDirPath[:len(RootDirPath)-1], FileName)
+									// the root path ends with the search wildcard, which is stripped; an empty path has nothing to strip
+									RootDirNoWildcard := RootDirPath
+									if len(RootDirNoWildcard) > 0 {
+										RootDirNoWildcard = RootDirNoWildcard[:len(RootDirNoWildcard)-1]
+									}
+									Dir += fmt.Sprintf("%s%s\n", RootDirNoWildcard, FileName)
 								} else {
 									LastModified = fmt.Sprintf("%02d/%02d/%d  %02d:%02d", LastAccessDay, LastAccessMonth, LastAccessYear, LastAccessHour, LastAccessMinute)
 									if IsDir {
